@@ -212,8 +212,25 @@ def concat_symlist(eng, lst, ndim_out):
     """np.vstack / np.hstack / np.concatenate(axis=0) of a ragged symbolic list: the array of off(n) rows whose segment s, starting at row
     off(s), is item s.  The defining property is instantiated at the harness's generic (segment, row) pairs (eng.generic_segments)."""
     I, M = _I(), _M()
+    if (lst.off is None or lst.lens is None) and not lst.scalar and ndim_out == 1 and getattr(eng, "ghost_offsets", None):
+        # np.hstack / np.concatenate of a list of *lists* of symbolic length (e.g. [[v] * count for ...]): as for sum(list of lists, []), segment s
+        # starts at off(s) with off a ghost supplied by the contract and checked here at the generic segment
+        off = eng.ghost_offsets.pop(0)
+        n = T.zi(lst.length)
+        eng.oblige("ghost/offsets-start-at-zero", off(0) == 0, kind="inv-init")
+        segs = [(T.zi(s_), T.zi(t_), lst.item(T.zi(s_))) for (s_, t_) in getattr(eng, "generic_segments", [])]
+        if any(type(seg).__name__ != "LazySeq" for _, _, seg in segs):
+            raise Unsupported("concatenation of a symbolic list whose items are not lists")
+        is_int = all(T.is_int_valued(seg.item(t_)) for _, t_, seg in segs) if segs else False
+        cat = z3.Function(f"concat!{T.fresh('c', 'int')}", z3.IntSort(), z3.IntSort() if is_int else z3.RealSort())
+        for s_, t_, seg in segs:
+            ln = T.zi(seg.length)
+            eng.oblige("ghost/offsets-advance-by-the-length-of-each-item", z3.Implies(z3.And(s_ >= 0, s_ < n), off(s_ + 1) - off(s_) == ln), kind="inv-step")
+            v = seg.item(t_)
+            eng.add_axiom(z3.Implies(z3.And(s_ >= 0, s_ < n, t_ >= 0, t_ < ln), cat(off(s_) + t_) == (T.zi(v) if is_int else T.zr(v))))
+        return I.Arr((off(n),), lambda j: cat(T.zi(j)), "int" if is_int else "real")
     if lst.off is None or lst.lens is None or lst.scalar:
-        raise Unsupported("concatenation of a symbolic list without ghost offsets")
+        raise Unsupported(f"concatenation of a symbolic list without ghost offsets (scalar items: {lst.scalar}, rank {ndim_out}, hints: {len(getattr(eng, 'ghost_offsets', None) or [])})")
     n = T.zi(lst.length)
     total = lst.off(n)
     probe = lst.item(T.fresh("probe", "int"))
